@@ -31,6 +31,7 @@ def main():
     ap = argparse.ArgumentParser()
     ap.add_argument("--only", default="")
     ap.add_argument("--kind", default="all")
+    ap.add_argument("--property", default="", help="only variants that concern this property; run only its check")
     args = ap.parse_args()
     tmp = tempfile.mkdtemp(prefix="mpdst.")
     wt = os.path.join(tmp, "w")
@@ -78,6 +79,10 @@ def main():
             for m in items:
                 if args.only and not m["id"].startswith(args.only):
                     continue
+                if args.property:
+                    concerned = set(m.get("props") or []) | ({m["property"]} if m.get("property") else set())
+                    if args.property not in concerned:
+                        continue
                 reset()
                 if "patch" in m:
                     r = sh("git", "-C", wt, "apply", m["patch"])
@@ -89,6 +94,8 @@ def main():
                     print("%-8s %-28s APPLY-FAILED %s" % (kind, m["id"], err))
                     continue
                 props = m.get("props") or [m["property"]]
+                if args.property and kind == "benign":
+                    props = [args.property]
                 res = run_checks(wt, props)
                 fired = sorted({r for pid in res for r in res[pid][1]})
                 broken = [pid for pid in res if res[pid][0] not in (0, 1) or "rule=engine" in res[pid][2]]
